@@ -620,6 +620,18 @@ func (f *Frame) callMods(cc *ssa.CallCommon, ms *modSet) {
 		}
 		if tc := f.ctx.eng.contractFor(t); tc != nil && tc.Traced {
 			f.addComp(ms, "$ncalls!"+funcKey(t), SInt)
+			sig := t.Signature
+			n := 0
+			if sig.Recv() != nil {
+				f.addComp(ms, fmt.Sprintf("$lastarg!%s!%d", funcKey(t), 0), f.sortOf(sig.Recv().Type()))
+				n = 1
+			}
+			for i := 0; i < sig.Params().Len(); i++ {
+				f.addComp(ms, fmt.Sprintf("$lastarg!%s!%d", funcKey(t), n+i), f.sortOf(sig.Params().At(i).Type()))
+			}
+			for i := 0; i < sig.Results().Len(); i++ {
+				f.addComp(ms, fmt.Sprintf("$lastres!%s!%d", funcKey(t), i), f.sortOf(sig.Results().At(i).Type()))
+			}
 		}
 	}
 	// private cells captured by the closure being called and written by it
